@@ -264,8 +264,9 @@ end Props.C03
 T1 is about the raw integer pairs of `Btc.EC.ops C` (sign and verify both).  T2–T4 are over `opsSub K`: `Btc.EC.ops C`
 applied to the underlying pairs (`Btc.C01.opsSub_val`), `lift_x` answering only inside the `n`-torsion — which on a
 curve with a cofactor the unrestricted `lift_x` leaves; what `verify_` accepts over `opsSub K` it accepts over
-`Btc.EC.ops C` (`verify_sub_imp_ec`).  For secp256k1 (generated constants) the only hypotheses are the primality of
-`p` and `n`: the rest of `CurveOk` is computed by the kernel (`Btc.E2E.secpOk`). -/
+`Btc.EC.ops C` (`verify_sub_imp_ec`).  For secp256k1 (generated constants) nothing is assumed about the curve: primality of
+`p` and `n` by Pratt certificates (`Btc.E2E.secp256k1_p_prime`, `secp256k1_n_prime`), the rest of `CurveOk` computed by
+the kernel (`Btc.E2E.secpOk`). -/
 namespace Props.C03
 open Btc Btc.EC Btc.C01 Btc.E2E Btc.Schnorr
 
@@ -319,19 +320,19 @@ theorem batch_one_bad_fails_ec {p : ℕ} [Fact p.Prime] {C : Curve} (K : CurveOk
     batchVerify (opsSub K) prm coef (it0 :: it1 :: rest) = false :=
   Btc.E2E.batch_one_bad_fails_ec K h34 prm coef it0 it1 rest j bad hj hbad hothers hcoef
 
-/-- T1 on secp256k1: the ONLY hypotheses are the primality of `p` and of `n` -/
-theorem sign_verifies_secp256k1 (hp : Nat.Prime secp256k1_p) (hn : Nat.Prime secp256k1_n) (prm : Params)
+/-- T1 on secp256k1, unconditional (primality of `p`, `n` proved: Pratt certificates) -/
+theorem sign_verifies_secp256k1 (prm : Params)
     (fuel : ℕ) (msg : Bytes) (q : ℤ) (aux : Bytes) (sg : Sig)
     (h : sign (EC.ops secp256k1) prm fuel msg q aux = .ok sg) :
     verify (EC.ops secp256k1) prm msg ((EC.ops secp256k1).x ((EC.ops secp256k1).mul q secp256k1.G)) sg = true :=
-  Btc.E2E.sign_verifies_secp256k1 hp hn prm fuel msg q aux sg h
+  Btc.E2E.sign_verifies_secp256k1 prm fuel msg q aux sg h
 
-/-- T2 on secp256k1 (`secpOps hp hn` = `opsSub` of secp256k1: `Btc.E2E.secpOps_val`) -/
-theorem verify_iff_secp256k1 (hp : Nat.Prime secp256k1_p) (hn : Nat.Prime secp256k1_n) (prm : Params)
+/-- T2 on secp256k1 (`secpOps` = `opsSub` of secp256k1: `Btc.E2E.secpOps_val`) -/
+theorem verify_iff_secp256k1 (prm : Params)
     (msg : Bytes) (xQ : ℤ) (sg : Sig) :
-    verify (secpOps hp hn) prm msg xQ sg = true ↔
+    verify secpOps prm msg xQ sg = true ↔
       0 ≤ sg.r ∧ sg.r < secp256k1.p ∧ 0 ≤ sg.s ∧ sg.s < secp256k1.n ∧
-      ∃ Q, (secpOps hp hn).liftX xQ = some Q ∧
+      ∃ Q, secpOps.liftX xQ = some Q ∧
         challengeInt (EC.ops secp256k1) prm msg xQ sg.r ≠ 0 ∧
         (EC.ops secp256k1).isZero ((EC.ops secp256k1).sub ((EC.ops secp256k1).mul sg.s secp256k1.G)
           ((EC.ops secp256k1).mul (challengeInt (EC.ops secp256k1) prm msg xQ sg.r) Q.1)) = false ∧
@@ -339,25 +340,25 @@ theorem verify_iff_secp256k1 (hp : Nat.Prime secp256k1_p) (hn : Nat.Prime secp25
           ((EC.ops secp256k1).mul (challengeInt (EC.ops secp256k1) prm msg xQ sg.r) Q.1)) = true ∧
         (EC.ops secp256k1).x ((EC.ops secp256k1).sub ((EC.ops secp256k1).mul sg.s secp256k1.G)
           ((EC.ops secp256k1).mul (challengeInt (EC.ops secp256k1) prm msg xQ sg.r) Q.1)) = sg.r :=
-  Btc.E2E.verify_iff_secp256k1 hp hn prm msg xQ sg
+  Btc.E2E.verify_iff_secp256k1 prm msg xQ sg
 
 /-- T3 on secp256k1 -/
-theorem batch_complete_secp256k1 (hp : Nat.Prime secp256k1_p) (hn : Nat.Prime secp256k1_n) (prm : Params)
+theorem batch_complete_secp256k1 (prm : Params)
     (coef : ℕ → ℤ) (items : List Item) (hne : items ≠ [])
-    (hall : ∀ it ∈ items, verify (secpOps hp hn) prm it.msg it.xQ it.sg = true) :
-    batchVerify (secpOps hp hn) prm coef items = true :=
-  Btc.E2E.batch_complete_secp256k1 hp hn prm coef items hne hall
+    (hall : ∀ it ∈ items, verify secpOps prm it.msg it.xQ it.sg = true) :
+    batchVerify secpOps prm coef items = true :=
+  Btc.E2E.batch_complete_secp256k1 prm coef items hne hall
 
 /-- T4 (one bad member) on secp256k1 -/
-theorem batch_one_bad_fails_secp256k1 (hp : Nat.Prime secp256k1_p) (hn : Nat.Prime secp256k1_n) (prm : Params)
+theorem batch_one_bad_fails_secp256k1 (prm : Params)
     (coef : ℕ → ℤ) (it0 it1 : Item) (rest : List Item) (j : ℕ) (bad : Item)
     (hj : (it0 :: it1 :: rest)[j]? = some bad)
-    (hbad : verify (secpOps hp hn) prm bad.msg bad.xQ bad.sg = false)
+    (hbad : verify secpOps prm bad.msg bad.xQ bad.sg = false)
     (hothers : ∀ k it', (it0 :: it1 :: rest)[k]? = some it' → k ≠ j →
-      verify (secpOps hp hn) prm it'.msg it'.xQ it'.sg = true)
+      verify secpOps prm it'.msg it'.xQ it'.sg = true)
     (hcoef : ¬ secp256k1.n ∣ coefAt coef j) :
-    batchVerify (secpOps hp hn) prm coef (it0 :: it1 :: rest) = false :=
-  Btc.E2E.batch_one_bad_fails_secp256k1 hp hn prm coef it0 it1 rest j bad hj hbad hothers hcoef
+    batchVerify secpOps prm coef (it0 :: it1 :: rest) = false :=
+  Btc.E2E.batch_one_bad_fails_secp256k1 prm coef it0 it1 rest j bad hj hbad hothers hcoef
 
 -- non-vacuity: on `y² = x³ + 7` over `F₄₃` (31 points) `CurveOk` is PROVED, nothing is assumed: actual signing runs
 -- of btclib's arithmetic, the verdict T1 gives on them, and a two-member batch of them passing for every coefficients
